@@ -62,6 +62,17 @@ CHECKS["C04"] = dict(
     technique="Lean 4 proof (plan equality, fusion with HAVING, spec invariance) + correspondence + metamorphic variants on DuckDB",
 )
 
+CHECKS["C06"] = dict(
+    category="proof",
+    text="Lean 4 theorems on the model of _build_metric_sql / extract_metric_dependencies (Layer/Metrics.lean): the expansion IS substitution on the formula tree (C06_expand_is_substitution); the substituted formula evaluated on any group equals "
+         "the formula applied to the component values of that group, for every formula tree of any depth (C06_compositional, C06_derived_value); ratio = num / NULLIF(den, 0) (C06_ratio_value); fill_nulls_with replaces exactly NULL; "
+         "an inlined component is the SQL the same metric has when selected directly, fill included (C06_nested_is_direct, via fuel monotonicity); own-model-first resolution and its proved exception (graph-level metric shadows, F7). "
+         "Tie: compile() SQL vs Lean genC structurally on generated formula trees x collision-prone naming schemes x decoy models registered first; oracle on real DuckDB rows: composite = formula over the layer's own component columns in exact rationals.",
+    design_ref="DESIGN.md §4 C06",
+    note="Textual regex substitution is modelled as tree substitution; captures show up as structural mismatches. Cross-model composites (with joins) only through the d26ec00 regression; two genuine defects fixed (d26ec00, e773629), two recorded (F7, F29).",
+    technique="Lean 4 proof (structural induction on formula trees, fuel monotonicity) + structural correspondence + exact-rational oracle on DuckDB rows",
+)
+
 CHECKS["C16"] = dict(
     category="proof",
     text="Lean 4 theorem C16_string_one_literal: for EVERY value and every continuation, the formatted string/date value lexes as exactly one string literal whose content is the value (round-trip), "
